@@ -116,9 +116,12 @@ void* trampoline(void* p) {
 
 }  // namespace
 
+extern "C" void vs_mutex_reset(void);  // engine/tbbrt/interpose.cpp (also forces that member to be linked)
+
 extern "C" {
 
 void vs_begin(vs_shared* sh) {
+  vs_mutex_reset();
   SH = sh;
   memset(T, 0, sizeof T);
   nthreads = 1;
